@@ -111,7 +111,7 @@ fn scalar_char(c: char) -> bool {
 
 fn scalar_value() -> BoxedStrategy<String> {
     prop_oneof![
-        3 => prop::sample::select(vec!["", "yes", "no", "a=b", "x y z", "  padded  ", "100", "é", "= lead", "user-destdir", "reason: broken"]).prop_map(String::from),
+        3 => prop::sample::select(vec!["", "yes", "no", "a=b", "x y z", "  padded  ", "100", "é", "= lead", "user-destdir", "reason: broken", "a\rb", "x\rPKGNAME=evil-1.0", "cr at end\r", "\x0cff"]).prop_map(String::from),
         1 => "[ -~]{0,16}",
         1 => "[ a-cé=:\t]{0,8}",
         1 => crate::engine::dict::string_token(scalar_char, "a"),
@@ -309,11 +309,11 @@ pub fn check(c: &Case, obs: &mut Obs) -> Result<(), String> {
         let t = l.trim();
         // white space other than blank and tab (VT, FF, U+0085, U+00A0, U+2028 ...): the statement
         // says "whitespace" / "trimmed" without saying which characters those are (see DESIGN 10.5)
-        if l.chars().any(|ch| ch.is_whitespace() && ch != ' ' && ch != '\t') {
+        if l.chars().any(|ch| ch.is_whitespace() && !matches!(ch, ' ' | '\t' | '\r' | '\x0c')) {
             obs.excluded = true;
             return Ok(());
         }
-        if l.contains(['\n', '\r']) || (t.starts_with("PKGNAME") && !t.starts_with("PKGNAME=") && t.split('=').next().map(|k| k.trim() == "PKGNAME").unwrap_or(false)) {
+        if l.contains('\n') || (t.starts_with("PKGNAME") && !t.starts_with("PKGNAME=") && t.split('=').next().map(|k| k.trim() == "PKGNAME").unwrap_or(false)) {
             obs.excluded = true;
             return Ok(());
         }
